@@ -94,6 +94,9 @@ pub struct Query {
     pub target: Option<K>,
     pub transpose: bool,
     pub meth: Meth,
+    /// run the builder once before the observed call (same builder value used twice):
+    /// search_path / search_cycle twice; search_edges before search_nodes and vice versa
+    pub repeat: bool,
 }
 
 #[derive(Clone, Debug, PartialEq)]
@@ -313,7 +316,7 @@ macro_rules! run_entries {
                 Some(n) => (SRes::Node(*n.key()), vec![n]),
                 None => (SRes::None, vec![]),
             }),
-            Entry::SearchPath => Ok(match $b.search_path() {
+            Entry::SearchPath => Ok(match { if $q.repeat { let _ = $b.search_path(); } $b.search_path() } {
                 Some(p) => path_res!(p),
                 None => (SRes::None, vec![]),
             }),
@@ -502,10 +505,12 @@ macro_rules! directed_flavour {
                             if q.transpose { b = b.transpose(); }
                             with_method!(b, q, cb, |bb| match q.entry {
                                 Entry::SearchNodes => {
+                                    if q.repeat { let _ = bb.search_edges(); }
                                     let ns = bb.search_nodes();
                                     Ok((SRes::Nodes(ns.iter().map(|n| *n.key()).collect()), ns))
                                 }
                                 Entry::SearchEdges => {
+                                    if q.repeat { let _ = bb.search_nodes(); }
                                     let es = bb.search_edges();
                                     let mut hs = vec![];
                                     for e in &es { hs.push(e.0.clone()); hs.push(e.1.clone()); }
@@ -636,10 +641,12 @@ macro_rules! undirected_flavour {
                             let b = if q.kind == Kind::Pre { root.order().pre() } else { root.order().post() };
                             with_method!(b, q, cb, |bb| match q.entry {
                                 Entry::SearchNodes => {
+                                    if q.repeat { let _ = bb.search_edges(); }
                                     let ns = bb.search_nodes();
                                     Ok((SRes::Nodes(ns.iter().map(|n| *n.key()).collect()), ns))
                                 }
                                 Entry::SearchEdges => {
+                                    if q.repeat { let _ = bb.search_nodes(); }
                                     let es = bb.search_edges();
                                     let mut hs = vec![];
                                     for e in &es { hs.push(e.0.clone()); hs.push(e.1.clone()); }
